@@ -24,7 +24,7 @@
 (* The store is a VALUE st (projection written by harness/auth.go):         *)
 (*   mainnet, gw, avs[addr] = [owners, task, ver], usd, tasks, results, chal,    *)
 (*   ops, opt, bls, ckey, vals, nonce, round, pv[module], assoc, newtoken,  *)
-(*   chain102, tokmeta, funded, natdel                                      *)
+(*   chain102, tokmeta, funded, natdel, prevkey                             *)
 (*                                                                         *)
 (* Two predicates are kept apart on purpose:                                *)
 (*   StmtAuthorized(st,e,c)  - who MAY, written from the property statement *)
@@ -56,7 +56,9 @@ GW   == {"depositLST", "withdrawLST", "depositNST", "withdrawNST", "registerOrUp
 AVSM == {"registerAVS", "registerAVS2", "updateAVS", "updateAVS2", "deregisterAVS", "createTask", "challenge", "challengeWrongHash"}
 OPP  == {"registerOperatorToAVS", "deregisterOperatorFromAVS", "registerBLSPublicKey"}
 \* MsgDelegation / MsgUndelegation: native-token (un)delegation of the signer's own account
-OPM  == {"RegisterOperator", "OptIntoAVS", "OptOutOfAVS", "SetConsKey", "SubmitTaskResult", "MsgDelegation", "MsgUndelegation"}
+\* SubmitTaskResult = phase ONE (commit) for task 1; SubmitTaskResult2 = phase TWO (reveal) for task 3,
+\* whose phase one the operator itself committed: the signer must be the operator in EVERY stage
+OPM  == {"RegisterOperator", "OptIntoAVS", "OptOutOfAVS", "SetConsKey", "SubmitTaskResult", "SubmitTaskResult2", "MsgDelegation", "MsgUndelegation"}
 ORA  == {"CreatePrice"}
 PMODS == {"oracle", "dogfood", "exomint", "feedistribution", "assets"}
 ParEntry(m) == "UpdateParams_" \o m
@@ -71,6 +73,7 @@ Principal(e) ==
     [] e = "OptOutOfAVS"      -> "o2"
     [] e = "SetConsKey"       -> "o1"
     [] e = "SubmitTaskResult" -> "o2"
+    [] e = "SubmitTaskResult2" -> "o2"
     [] e = "MsgDelegation"    -> "s1"
     [] e = "MsgUndelegation"  -> "s2"
 
@@ -157,7 +160,7 @@ CodeAccepts(st, e, c) ==
     [] e \in OPP  -> \/ "DEV_OperatorBySender" \in DEVS                 \* operator := args[0], whoever calls
                      \/ c.sender = c.origin
     \* SubmitTaskResult names the operator twice: FromAddress (the signer) and Info.OperatorAddress
-    [] e = "SubmitTaskResult" -> SigOK(c)
+    [] e \in {"SubmitTaskResult", "SubmitTaskResult2"} -> SigOK(c)      \* SetTaskResultInfo: addr != info.OperatorAddress, before the stage switch
     [] e \in OPM  -> AnteOK(c)
     [] e \in ORA  -> OracleAnteOK(c)
     [] e \in PAR  -> /\ (c.kind = "gov" \/ AnteOK(c))
@@ -181,7 +184,7 @@ Feasible(st, e, c) ==
     [] e = "createTask"    -> AvsOfTask(st, c.from) # "" /\ AvsOfTask(st, c.from) \in st.usd
     [] e = "challenge"     -> /\ AvsOfTask(st, c.from) # ""               \* epoch of the AVS is looked up by task address
                               /\ [t |-> c.from, n |-> 2] \in st.tasks
-                              /\ [o |-> "o2", t |-> c.from, n |-> 2] \in st.results
+                              /\ [o |-> "o2", t |-> c.from, n |-> 2, s |-> 2] \in st.results
                               /\ ~\E x \in st.chal : x.o = "o2" /\ x.t = c.from /\ x.n = 2
     \* RaiseAndResolveChallenge: hash mismatch -> ErrHashValue (since fix 4ac3ef5; before it
     \* errorsmod.Wrap(nil, ..) = nil: no effect but reported as success, lead L21)
@@ -196,7 +199,12 @@ Feasible(st, e, c) ==
     [] e = "SubmitTaskResult" -> /\ c.claimed \in st.ops /\ c.claimed \in st.bls
                                  /\ AvsOfTask(st, "cA") # ""             \* epoch of the AVS is looked up by task address
                                  /\ [t |-> "cA", n |-> 1] \in st.tasks
-                                 /\ [o |-> c.claimed, t |-> "cA", n |-> 1] \notin st.results
+                                 /\ ~\E x \in st.results : x.o = c.claimed /\ x.t = "cA" /\ x.n = 1
+    \* phase two: the phase-one record of the named operator exists (BLS signature equal), reveal window open
+    [] e = "SubmitTaskResult2" -> /\ c.claimed \in st.ops /\ c.claimed \in st.bls
+                                  /\ AvsOfTask(st, "cA") # ""
+                                  /\ [t |-> "cA", n |-> 3] \in st.tasks
+                                  /\ \E x \in st.results : x.o = c.claimed /\ x.t = "cA" /\ x.n = 3
     [] e = "MsgDelegation"   -> TRUE
     [] e = "MsgUndelegation" -> c.claimed \in st.natdel
     [] e \in ORA -> c.claimed \in DOMAIN st.nonce /\ st.nonce[c.claimed] = 0 /\ c.claimed \in st.vals
@@ -238,9 +246,17 @@ Effect(st, e, c) ==
     [] e = "RegisterOperator" -> [st |-> [st EXCEPT !.ops = @ \cup {c.claimed}], mods |-> {"operator"}]
     [] e = "OptIntoAVS"  -> [st |-> [st EXCEPT !.opt = @ \cup {[o |-> c.claimed, a |-> "cA"]}], mods |-> {"operator"}]
     [] e = "OptOutOfAVS" -> [st |-> [st EXCEPT !.opt = @ \ {[o |-> c.claimed, a |-> "cA"]}], mods |-> {"operator"}]
-    [] e = "SetConsKey"  -> [st |-> [st EXCEPT !.ckey = [o \in DOMAIN @ \cup {c.claimed} |-> IF o = c.claimed THEN "k8" ELSE @[o]]],
+    \* the first replacement of an epoch records the previous key (prevkey); EVERY replacement calls
+    \* the dogfood hook that schedules the replaced key for pruning (also the second one of an epoch)
+    [] e = "SetConsKey"  -> [st |-> [st EXCEPT !.ckey = [o \in DOMAIN @ \cup {c.claimed} |-> IF o = c.claimed THEN "k8" ELSE @[o]],
+                                             !.prevkey = @ \cup {c.claimed}],
                              mods |-> {"operator", "dogfood"}]
-    [] e = "SubmitTaskResult" -> [st |-> [st EXCEPT !.results = @ \cup {[o |-> c.claimed, t |-> "cA", n |-> 1]}], mods |-> {"avs"}]
+    [] e = "SubmitTaskResult" -> [st |-> [st EXCEPT !.results = @ \cup {[o |-> c.claimed, t |-> "cA", n |-> 1, s |-> 1]}], mods |-> {"avs"}]
+    \* the stored record moves from stage 1 to stage 2 (a repeated reveal rewrites the same bytes)
+    [] e = "SubmitTaskResult2" ->
+          LET old == {x \in st.results : x.o = c.claimed /\ x.t = "cA" /\ x.n = 3}
+              new == [o |-> c.claimed, t |-> "cA", n |-> 3, s |-> 2]
+          IN [st |-> [st EXCEPT !.results = (@ \ old) \cup {new}], mods |-> IF new \in st.results THEN {} ELSE {"avs"}]
     \* native token: bank escrow (account -> delegated pool) moves besides the two ledgers
     [] e = "MsgDelegation"   -> [st |-> [st EXCEPT !.natdel = @ \cup {c.claimed}], mods |-> {"assets", "delegation", "bank"}]
     [] e = "MsgUndelegation" -> [st |-> st, mods |-> {"assets", "delegation"}]
@@ -255,7 +271,7 @@ Unchanged(st) == [st |-> st, ok |-> FALSE, mods |-> {}]
 \* SubmitTaskResult's tx signer is whoever signs (FromAddress); the operator is named inside.
 AnteAccepts(st, e, c) ==
   CASE e \in ORA -> OracleAnteOK(c) /\ c.claimed \in DOMAIN st.nonce /\ st.nonce[c.claimed] = 0
-    [] e = "SubmitTaskResult" -> c.sig = "valid" \/ SigOK(c)
+    [] e \in {"SubmitTaskResult", "SubmitTaskResult2"} -> c.sig = "valid" \/ SigOK(c)
     [] OTHER -> AnteOK(c)
 
 \* the code, step by step: authorisation check, then the keeper's own preconditions
@@ -315,7 +331,7 @@ BoundToPrincipal(pre, post, e, c) ==
            /\ post.ops = pre.ops /\ post.ckey = pre.ckey
     [] e = "SetConsKey" -> /\ \A o \in DOMAIN post.ckey : o # c.key => (o \in DOMAIN pre.ckey /\ post.ckey[o] = pre.ckey[o])
                            /\ post.opt = pre.opt /\ post.ops = pre.ops
-    [] e = "SubmitTaskResult" -> \A x \in post.results \ pre.results : x.o = c.key
+    [] e \in {"SubmitTaskResult", "SubmitTaskResult2"} -> \A x \in (post.results \ pre.results) \cup (pre.results \ post.results) : x.o = c.key
     \* (the honest carrier of a multi-message tx acts for its own signer)
     [] e \in {"MsgDelegation", "MsgUndelegation"} ->
            (post.natdel \ pre.natdel) \cup (pre.natdel \ post.natdel) \subseteq {c.key} \cup (IF c.carrier = "-" THEN {} ELSE {CarrierAcct})
@@ -326,5 +342,31 @@ BoundToPrincipal(pre, post, e, c) ==
 Binding(pre, post, e, c, mods) ==
   (StmtAuthorized(pre, e, c) /\ (post # pre \/ mods # {})) => BoundToPrincipal(pre, post, e, c)
 
-\* the gateway-driven entries and parameter changes leave the registries of the other groups alone
+(***************************************************************************)
+(* base states (built on the real application by harness/auth.go)           *)
+(***************************************************************************)
+B0 == [ mainnet |-> TRUE, gw |-> "gw", avs |-> <<>>, usd |-> {}, tasks |-> {}, results |-> {}, chal |-> {},
+        ops |-> {"o1", "o2", "o3"}, opt |-> {[o |-> "o1", a |-> "chain"], [o |-> "o3", a |-> "chain"]}, bls |-> {},
+        ckey |-> [o1 |-> "k1", o3 |-> "k3"], vals |-> {"k1", "k3"}, nonce |-> [k1 |-> 0, k3 |-> 0], round |-> 2,
+        pv |-> [assets |-> "gw", dogfood |-> "10", exomint |-> "20", feedistribution |-> "minute", oracle |-> "100"],
+        prevkey |-> {}, assoc |-> {}, natdel |-> {}, newtoken |-> FALSE, chain102 |-> FALSE, tokmeta |-> FALSE, funded |-> FALSE ]
+
+B1 == [ B0 EXCEPT !.avs = [cA |-> [owners |-> {"a1"}, task |-> "cA", ver |-> 1]], !.usd = {"cA"},
+                   !.tasks = {[t |-> "cA", n |-> 1], [t |-> "cA", n |-> 2], [t |-> "cA", n |-> 3]},
+                   !.results = {[o |-> "o2", t |-> "cA", n |-> 2, s |-> 2], [o |-> "o2", t |-> "cA", n |-> 3, s |-> 1]},
+                   !.opt = @ \cup {[o |-> "o2", a |-> "cA"]}, !.bls = {"o2"},
+                   !.assoc = {"s2"}, !.natdel = {"s2"}, !.funded = TRUE ]
+
+\* B2 = B1 advanced to the later stage of every multi-stage protocol by the rightful callers (the
+\* harness performs the same calls on the real application, harness/auth.go: buildB2)
+RC(kind, via, from, sender, claimed) ==
+  [kind |-> kind, via |-> via, from |-> from, sender |-> sender, origin |-> sender, claimed |-> claimed, key |-> claimed,
+   sig |-> IF kind = "cosmos" THEN "valid" ELSE "-", carrier |-> "-"]
+B2 == LET s1 == Call(B1, "updateAVS2", RC("evm", "run", "cA", "a1", "-")).st
+          s2 == Call(s1, "SubmitTaskResult", RC("cosmos", "tx", "-", "-", "o2")).st
+          s3 == Call(s2, "SubmitTaskResult2", RC("cosmos", "tx", "-", "-", "o2")).st
+          s4 == Call(s3, "challenge", RC("evm", "run", "cA", "a1", "-")).st
+      IN  [s4 EXCEPT !.ckey["o1"] = "k7", !.prevkey = {"o1"}]     \* o1 replaced k1 by k7 (SetConsKey with another key)
+
+BaseState(b, ch) == [ (CASE b = "B0" -> B0 [] b = "B1" -> B1 [] b = "B2" -> B2) EXCEPT !.mainnet = (ch = "main") ]
 =============================================================================
